@@ -87,13 +87,17 @@ func fixedScenarios() []*scn {
 		s.cmd(sub("b", 2))
 		s.cmd(unsub("c"))
 		s.cmd(sub("d", 0))
-		s.waitFuts(5)
-		s.cmd(pub("t", "x", 1)) // the peer drops on this one
+		s.cmd(sub("e", 0, "e", 2, "e", 1))                                              // one SUBSCRIBE listing a filter three times: the last one counts
+		s.cmd(sub("Z", 1, "\xc3\xa9", 0, "a/", 1, "a//b", 2, "/", 0, "a/+", 1, "#", 2)) // Go string order: bytewise, unsigned
+		s.cmd(unsub("Z", "nope", "a//b"))
+		s.cmd(sub("Z", 2))
+		s.waitFuts(9)
+		s.cmd(pubr("t", "x", 1)) // the peer drops on this one
 		s.waitCount("online", 2)
-		s.cmd(pub("t", "y", 1))
-		s.waitCount("peerreq", 8)
+		s.cmd(pubr("t", "y", 1))
+		s.waitCount("peerreq", 12)
 	})
-	rs.plans = []connPlan{{dropAfter: 6}}
+	rs.plans = []connPlan{{dropAfter: 10}}
 	add(rs)
 
 	// D17: a subscription rejected while dispatching: client dies, service reconnects, later commands complete
@@ -411,6 +415,14 @@ func scheduleScenarios(c *hx.Ctx) []*scn {
 		s.via(func() { s.cmd(pub("t", "3-times-out", 1)) })
 		s.via(func() { s.cmd(unsub("4-times-out")) })
 		s.waitFuts(2)
+		s.mu.Lock()
+		if s.futSt[0] != "pending" || s.futSt[1] != "pending" || s.futSt[2] != "cancelled" || s.futSt[3] != "cancelled" {
+			s.mu.Unlock()
+			s.direct("queue", fmt.Sprintf("capacity-2-offline:commands-0,1-must-wait-and-2,3-be-refused-after-QueueTimeout:got-%v", s.futSt[:4]))
+		} else {
+			s.mu.Unlock()
+			s.direct("queue", "")
+		}
 		s.bump("allow")
 		s.waitCount("online", 1)
 		s.waitFuts(4)
@@ -448,6 +460,15 @@ func scheduleScenarios(c *hx.Ctx) []*scn {
 		s.waitFuts(3)
 		s.via(func() { s.cmd(pub("t", "p3", 1)) })
 		s.waitFuts(4)
+		s.mu.Lock()
+		bad := ""
+		for n := 0; n < 3; n++ {
+			if s.futSt[n] != "completed" {
+				bad += fmt.Sprintf("future-%d-%s;", n, s.futSt[n])
+			}
+		}
+		s.mu.Unlock()
+		s.direct("futures_survive", bad)
 	})
 	la.clean = false
 	sa := packet.NewSuback()
@@ -455,6 +476,30 @@ func scheduleScenarios(c *hx.Ctx) []*scn {
 	sa.ReturnCodes = []packet.QOS{1}
 	la.plans = []connPlan{{noAck: map[int]bool{1: true, 2: true}, dropAfter: 4}, {sp: true, lateAcks: []packet.Generic{sa}}}
 	add(la)
+
+	// S7b: a QoS 2 publish whose connection is lost after the PUBREC (PUBREL stored and sent, no PUBCOMP): the flow is
+	// resumed on the next connection and the future completes there; same for a QoS 1 publish lost before its PUBACK
+	lb := mk("s7b-qos2-resumed-after-pubrec", func(s *scn) {
+		s.start()
+		s.waitCount("online", 1)
+		s.via(func() { s.cmd(pub("t", "q2", 2)) })
+		s.waitCount("pubrel", 1)
+		s.via(func() { s.cmd(pub("t", "q1", 1)) }) // the peer drops on it
+		s.waitCount("online", 2)
+		s.waitFuts(2)
+		s.mu.Lock()
+		bad := ""
+		for n := 0; n < 2; n++ {
+			if s.futSt[n] != "completed" {
+				bad += fmt.Sprintf("future-%d-%s;", n, s.futSt[n])
+			}
+		}
+		s.mu.Unlock()
+		s.direct("futures_survive", bad)
+	})
+	lb.clean = false
+	lb.plans = []connPlan{{noPubcomp: true, dropAfter: 2}, {sp: true}}
+	add(lb)
 
 	// B: the connection is lost while commands are queued and the dispatcher is busy; when it goes on it either sees
 	// the kill signal or hands the next command to the dead client (ErrClientNotConnected): that command is cancelled,
@@ -483,6 +528,94 @@ func scheduleScenarios(c *hx.Ctx) []*scn {
 		s.plans = []connPlan{{holdSend: 2, holdGate: "g", dropGate: "drop"}}
 		out = append(out, s)
 	}
+
+	// B2: the send of a queued command fails while more are queued behind it: the failed one is cancelled, the
+	// connection is given up at once, the others wait for the next connection (nothing is dispatched in between)
+	for _, clean := range []bool{true, false} {
+		s := mk(fmt.Sprintf("b2-send-fails-with-queue-clean%v", clean), func(s *scn) {
+			s.start()
+			s.waitCount("online", 1)
+			s.via(func() { s.cmd(pub("o", "m0-held-in-send", 1)) })
+			s.waitCount("send", 1)
+			s.via(func() { s.cmd(sub("b2/x", 1)) }) // its send fails
+			s.via(func() { s.cmd(unsub("b2/x")) })
+			s.via(func() { s.cmd(pub("o", "m3", 2)) })
+			s.release("g")
+			s.waitCount("online", 2)
+			s.waitFut(2)
+			s.waitFut(3)
+		})
+		s.clean = clean
+		s.plans = []connPlan{{holdSend: 2, holdGate: "g", failSend: 3}}
+		out = append(out, s)
+	}
+
+	// B3: the connection is lost and the client is dead, but the service has not been told yet (the error callback is
+	// held before it closes the kill channel): the next command is handed to the dead client, fails with "not
+	// connected", is cancelled, and still counts for the subscription set; the ones behind it keep their place
+	for i, first := range []body{sub("b3/y", 2), unsub("b3/x"), pubr("o", "to-a-dead-client", 1), sub("b3/y", 1, "b3/z", 0)} {
+		first := first
+		s := mk(fmt.Sprintf("b3-dead-client-%d", i), func(s *scn) {
+			s.start()
+			s.waitCount("online", 1)
+			s.via(func() { s.cmd(sub("b3/x", 1)) })
+			s.waitFut(0)
+			s.release("drop")
+			s.waitCount("kill", 1)
+			s.via(func() { s.cmd(first) })
+			s.via(func() { s.cmd(unsub("b3/never")) })
+			s.via(func() { s.cmd(pub("o", "behind", 1)) })
+			s.waitCount("disperr", 1)
+			s.release("eg")
+			s.waitCount("online", 2)
+			s.waitFut(2)
+			s.waitFut(3)
+		})
+		s.clean = i%2 == 0
+		s.errGate = "eg"
+		s.plans = []connPlan{{dropGate: "drop"}}
+		out = append(out, s)
+	}
+
+	// many consecutive failures before the first success, and a long run of reconnects
+	mf := mk("many-failures", func(s *scn) {
+		s.via(func() { s.cmd(sub("mf", 1)) })
+		s.start()
+		s.waitCount("online", 1)
+		s.waitFut(0)
+	})
+	for i := 0; i < 40; i++ {
+		p := connPlan{refuse: true}
+		switch i % 4 {
+		case 1:
+			p = connPlan{failSend: 1}
+		case 2:
+			p = connPlan{connack: "drop"}
+		case 3:
+			p = connPlan{connack: "deny"}
+		}
+		mf.plans = append(mf.plans, p)
+	}
+	out = append(out, mf)
+
+	// a large subscription set: one resubscribe request carries all of it, sorted
+	ls := mk("large-set", func(s *scn) {
+		s.start()
+		s.waitCount("online", 1)
+		for k := 0; k < 3; k++ {
+			var tq []interface{}
+			for j := 0; j < 60; j++ {
+				tq = append(tq, fmt.Sprintf("big/%03d", (j*7+k*61)%180), (j+k)%3)
+			}
+			b := sub(tq...)
+			s.via(func() { s.cmd(b) })
+		}
+		s.waitFuts(3)
+		s.via(func() { s.cmd(pub("t", "drop-here", 1)) })
+		s.waitCount("online", 2)
+	})
+	ls.plans = []connPlan{{dropAfter: 4}}
+	out = append(out, ls)
 
 	// A: Stop excludes Start until it has returned (the service mutex), and the restarted service keeps its futures
 	// across a reconnect.  Stop(true) is held in the OfflineCallback; a concurrent Start must not return first.
